@@ -50,6 +50,15 @@ def run(r: core.Run):
             return False
         m = re.match(r'^"(.*)"\^\^type:text$', t, re.S)
         return bool(m) and m.group(1).endswith("\\")
+    d38 = next((f for f in r.findings.get("findings", []) if f.get("property") == "C16" and f.get("id", "").startswith("D38")), None)
+    d38_seen = False
+
+    def in_d38(hexform):
+        try:
+            t = bytes.fromhex(hexform).decode("utf-8", "replace")
+        except ValueError:
+            return False
+        return bool(re.match(r'^/[^<>]*\\<[^<>]*>$', t, re.S))
     try:
         stats = core.run_bwh(["lex", "-maxlen", str(maxlen), "-n", str(n), "-ops", base + ".ops", "-impl", base + ".impl"],
                              extra_env={"VERIF_SEED": str(r.seed)}, timeout=3000)
@@ -85,6 +94,11 @@ def run(r: core.Run):
                         if f[2] == d36.get("witness"):
                             d36_seen = True
                         continue
+                    if f[1] == "printed" and d38 is not None and in_d38(f[2]):
+                        # known finding D38 (class: a printed node whose type ends with a backslash)
+                        if f[2] == d38.get("witness"):
+                            d38_seen = True
+                        continue
                     bad.append((i, o, a, f"metamorphic law '{f[1]}' fails on the real lexer: {a}"))
         r.cov["distinct_nontrivial"] = len(nontriv)
         r.cov["traces_validated_against_impl"] = r.cov["evaluations"]
@@ -111,6 +125,8 @@ def run(r: core.Run):
             return
     if d36_seen:
         r.known(d36["id"], d36["what"])
+    if d38_seen:
+        r.known(d38["id"], d38["what"])
     for i, o, a, why in bad[:3]:
         payload = {"protocol": "lex", "what": why, "implementation": a, "op": o}
         if o.startswith("L "):
